@@ -48,3 +48,71 @@ func CallDeposit(a *Acc, k int) int { return a.Deposit(k) }
 
 //go:noinline
 func CallPeek(a Acc, k int) int { return a.Peek(k) }
+
+// Box is a generic type with a value-receiver and a pointer-receiver method whose signatures do
+// not mention T (no dictionary-dependent arguments).
+type Box[T any] struct {
+	V T
+	N int
+}
+
+// Peek has a value receiver.
+//
+//go:noinline
+func (b Box[T]) Peek(k int) int {
+	if k > 1<<41 {
+		return k*3 - b.N
+	}
+	return b.N + k + 400
+}
+
+// Count has a pointer receiver.
+//
+//go:noinline
+func (b *Box[T]) Count(k int) int {
+	if k > 1<<42 {
+		return k*5 - b.N
+	}
+	return b.N + k + 500
+}
+
+// Direct calls on instances of different instantiations.
+//
+//go:noinline
+func PeekInt(b Box[int], k int) int { return b.Peek(k) }
+
+//go:noinline
+func PeekString(b Box[string], k int) int { return b.Peek(k) }
+
+//go:noinline
+func CountInt(b *Box[int], k int) int { return b.Count(k) }
+
+//go:noinline
+func CountString(b *Box[string], k int) int { return b.Count(k) }
+
+// lowA / lowB are unexported methods addressed by name.
+//
+//go:noinline
+func (a *Acc) lowA(k int) int {
+	if k > 1<<43 {
+		return k*7 - a.N
+	}
+	return a.N + k + 600
+}
+
+//go:noinline
+func (a *Acc) lowB(k int) int {
+	if k > 1<<44 {
+		return k*9 - a.N
+	}
+	return a.N + k + 700
+}
+
+//go:noinline
+func CallLowA(a *Acc, k int) int { return a.lowA(k) }
+
+//go:noinline
+func CallLowB(a *Acc, k int) int { return a.lowB(k) }
+
+// Pkg is this package's import path.
+const Pkg = "verifh/targets/c06mixed"
